@@ -100,13 +100,19 @@ func runOverlayTest(repo, pkg, src, name string) (string, bool) {
 }
 
 // tryReplay builds a concrete input from a solver model of the failed obligation and runs the real function on it.
+// replayDeadline bounds the whole search for failing inputs of one run (set by runProperty).
+var replayDeadline time.Time
+
 func tryReplay(p *Prog, o *Obligation, replayFile, repo string) (bool, any) {
 	ok, info := tryReplayOne(p, o, replayFile, repo)
 	if ok {
 		return ok, info
 	}
 	// bounded counterexample search: unroll the loops and ask for models of the unrolled paths' obligations
-	deadline := time.Now().Add(90 * time.Second)
+	deadline := time.Now().Add(60 * time.Second)
+	if !replayDeadline.IsZero() && replayDeadline.Before(deadline) {
+		deadline = replayDeadline
+	}
 	tried := 0
 	for _, k := range []int{1, 2, 3} {
 		for _, c := range unrolledCandidates(p, o, k) {
